@@ -20,7 +20,7 @@ import ast
 import re
 
 from .. import guards, util
-from ..core import walk_no_nested
+from ..core import norm, walk_no_nested
 from ..report import rule
 from .joinstride import SI
 
@@ -165,3 +165,170 @@ def c21_revcommute(R):
             construct="normalize_types: reversal flags cleared with reverse_back",
         )
     R.need(n >= 1, "normalize_types: no site asks for the result to be reversed back")
+
+
+# fields that determine which values an interval stands for
+_VALUE_FIELDS = {"_bits", "_stride", "_lower_bound", "_upper_bound", "_reversed", "_is_bottom", "bits", "stride", "lower_bound", "upper_bound"}
+_FRESH_CALLS = {"copy", "nameless_copy", "top", "empty", "StridedInterval"}
+
+
+def _assigns_to(st, name):
+    if isinstance(st, ast.Assign) and any(isinstance(t, ast.Name) and t.id == name for t in st.targets):
+        return [("value", st.value)]
+    if isinstance(st, ast.For) and any(isinstance(t, ast.Name) and t.id == name for t in ast.walk(st.target)):
+        return [("element", st.iter)]
+    return []
+
+
+def _reaching(name, at, fn):
+    """definitions of `name` that can reach the statement `at`: walking backwards through the earlier siblings, block by
+    block; an unconditional assignment ends the search, a compound statement contributes whatever it assigns inside"""
+    out = []
+    child, par = at, getattr(at, "_parent", None)
+    while par is not None:
+        for fld in ("body", "orelse", "finalbody"):
+            b = getattr(par, fld, None)
+            if isinstance(b, list) and child in b:
+                for prev in reversed(b[: b.index(child)]):
+                    direct = _assigns_to(prev, name)
+                    if direct and isinstance(prev, ast.Assign):
+                        return out + direct
+                    out += direct
+                    if isinstance(prev, (ast.If, ast.For, ast.While, ast.Try, ast.With)):
+                        for inner in ast.walk(prev):
+                            if inner is not prev:
+                                out += _assigns_to(inner, name)
+        if isinstance(par, ast.For):
+            out += _assigns_to(par, name)
+            # a loop body runs again: assignments further down in the body reach the top of the next round
+            for inner in ast.walk(par):
+                if inner is not par and inner is not at:
+                    out += [d for d in _assigns_to(inner, name) if d not in out]
+        if par is fn:
+            break
+        child, par = par, getattr(par, "_parent", None)
+    return out or None
+
+
+def _fresh(e, fn, methods, depth=0, seen=None, at=None):
+    """does `e` evaluate to an interval object created during this call (so that nobody else holds it)?"""
+    seen = seen or set()
+    if isinstance(e, ast.IfExp):
+        return _fresh(e.body, fn, methods, depth, seen) and _fresh(e.orelse, fn, methods, depth, seen)
+    if isinstance(e, ast.Call):
+        f = e.func
+        name = f.attr if isinstance(f, ast.Attribute) else (f.id if isinstance(f, ast.Name) else None)
+        if name in _FRESH_CALLS:
+            return True
+        if name in methods and isinstance(f, ast.Attribute):
+            rets = [r.value for r in walk_no_nested(methods[name]) if isinstance(r, ast.Return) and r.value is not None]
+            if rets and all(isinstance(r, ast.Name) and r.id == "self" for r in rets):
+                # the method hands back its receiver (normalize): as fresh as the receiver is
+                return _fresh(f.value, fn, methods, depth, seen, at)
+        if name in methods and name in seen:
+            return True  # recursion only passes objects on
+        if name in methods and depth < 4:
+            return _returns_fresh(methods[name], methods, depth + 1, seen | {name})
+        return False
+    if isinstance(e, ast.Constant) and e.value is None:
+        return True  # no object at all
+    if isinstance(e, ast.Name):
+        if e.id == "self":
+            return False
+        defs = _reaching(e.id, at, fn) if at is not None else None
+        if defs is None:
+            defs = []
+            for st in walk_no_nested(fn):
+                if isinstance(st, ast.Assign) and any(isinstance(t, ast.Name) and t.id == e.id for t in st.targets):
+                    defs.append(("value", st.value))
+                elif isinstance(st, ast.For) and any(isinstance(t, ast.Name) and t.id == e.id for t in ast.walk(st.target)):
+                    defs.append(("element", st.iter))
+        at = None
+        if e.id in seen:
+            return True  # a cycle only passes objects on: the other definitions decide (greatest fixed point)
+        if not defs:
+            return False
+        ok = True
+        for kind, v in defs:
+            if kind == "value":
+                ok = ok and _fresh(v, fn, methods, depth, seen | {e.id})
+            else:
+                ok = ok and _fresh_elements(v, fn, methods, depth, seen | {e.id})
+        return ok
+    return False
+
+
+def _fresh_elements(e, fn, methods, depth, seen):
+    """is every element of the sequence `e` a fresh interval?"""
+    if isinstance(e, (ast.List, ast.Tuple)):
+        return all(_fresh(x, fn, methods, depth, seen) for x in e.elts)
+    if isinstance(e, ast.Call):
+        f = e.func
+        name = f.attr if isinstance(f, ast.Attribute) else (f.id if isinstance(f, ast.Name) else None)
+        if name in methods and depth < 3 and name not in seen:
+            m_ = methods[name]
+            rets = [r.value for r in walk_no_nested(m_) if isinstance(r, ast.Return) and r.value is not None]
+            return bool(rets) and all(_fresh_elements(r, m_, methods, depth + 1, seen | {name}) for r in rets)
+    if isinstance(e, ast.Name):
+        defs = [st.value for st in walk_no_nested(fn) if isinstance(st, ast.Assign) and any(isinstance(t, ast.Name) and t.id == e.id for t in st.targets)]
+        appended = [c.args[0] for c in walk_no_nested(fn) if isinstance(c, ast.Call) and isinstance(c.func, ast.Attribute) and c.func.attr == "append" and ast.unparse(c.func.value) == e.id and c.args]
+        if e.id in seen:
+            return True
+        if not defs:
+            return False
+        return all(_fresh_elements(d, fn, methods, depth, seen | {e.id}) for d in defs) and all(_fresh(a, fn, methods, depth, seen | {e.id}) for a in appended)
+    return False
+
+
+def _returns_fresh(m_, methods, depth, seen):
+    rets = [r.value for r in walk_no_nested(m_) if isinstance(r, ast.Return) and r.value is not None]
+    return bool(rets) and all(_fresh(r, m_, methods, depth, seen) for r in rets)
+
+
+# confirmed by reading, one line of reason each: writes whose receiver the freshness analysis cannot follow
+_FRESH_CONFIRMED = {
+    ("_reverse", "si"): "si is built from the byte slices of the copy o (each the result of a shift or cast_low, i.e. of a "
+    "constructor, or a copy) joined by concat, which always constructs its result; only the shift-by-zero path of "
+    "_rshift_logical hands back its receiver, and that receiver is the copy o",
+}
+
+
+@rule(
+    "C21.fresh",
+    props=("C21", "C24"),
+    floor=8,
+    family="TS",
+    desc="interval objects are shared (operands, cached conversions of ASTs): a transfer function writes a "
+    "value-determining field (_bits, _stride, bounds, _reversed) only of an object created during the call - a copy, a "
+    "constructor result, or the result / an element of the result of a method whose every return is such an object",
+)
+def c21_fresh(R):
+    tree = R.tree
+    m = tree.mod(SI)
+    cls = tree.cls(SI, "StridedInterval")
+    methods = util.methods_of(cls)
+    n = 0
+    for name, fn in methods.items():
+        if name in ("__init__",):
+            continue
+        for st in walk_no_nested(fn):
+            tg = st.targets if isinstance(st, ast.Assign) else ([st.target] if isinstance(st, ast.AugAssign) else [])
+            for x in tg:
+                if not (isinstance(x, ast.Attribute) and x.attr in _VALUE_FIELDS and isinstance(x.value, ast.Name) and x.value.id != "self"):
+                    continue
+                n += 1
+                if (name, x.value.id) in _FRESH_CONFIRMED:
+                    R.ok(m, st, f"{name}: `{x.value.id}` - {_FRESH_CONFIRMED[(name, x.value.id)]}")
+                    continue
+                R.check(
+                    _fresh(x.value, fn, methods, at=st),
+                    m,
+                    st,
+                    f"{name}: `{x.value.id}` is created during the call",
+                    f"StridedInterval.{name} writes `{norm(st)[:60]}` to `{x.value.id}`, which is not known to be an object created "
+                    f"during this call (a copy, a constructor result, or what a method returns on every path): operands and "
+                    f"cached conversions are shared - after ZeroExt(8, x) had rewritten the width of x itself, SignExt(8, x) was "
+                    f"computed from a 16-bit x and x <s 0 answered False for x in [0x80, 0x90]",
+                    construct=f"{name}: in-place write to {x.value.id}.{x.attr}",
+                )
+    R.need(n >= 8, f"only {n} in-place writes to value fields found")
